@@ -67,6 +67,8 @@ type Config struct {
 	// instead of the apis/client + apis/server wrappers: no socks5 request/response is
 	// exchanged, a client session stays in its initial state until it reads.
 	RawMux bool
+	// OnStreamConn supplies per-connection stream options (tampering harness).
+	OnStreamConn func(id int) (c2s, s2c simnet.StreamOpts)
 
 	noAutoStart bool
 }
@@ -209,7 +211,7 @@ func (w *World) NewClient(user *appctlpb.User, src net.IP) (client.Client, error
 	cli := client.NewClient()
 	err := cli.Store(&client.ClientConfig{
 		Profile:      w.ClientProfile(user),
-		Dialer:       simnet.Dialer{N: w.Net, Source: src, C2S: w.Cfg.C2S, S2C: w.Cfg.S2C},
+		Dialer:       simnet.Dialer{N: w.Net, Source: src, C2S: w.Cfg.C2S, S2C: w.Cfg.S2C, PerConn: w.Cfg.OnStreamConn},
 		PacketDialer: simnet.PacketDialer{N: w.Net, Source: src},
 	})
 	if err != nil {
